@@ -1,6 +1,8 @@
 package leanhelix
 
 import (
+	"context"
+
 	"github.com/orbs-network/lean-helix-go/services/interfaces"
 	"github.com/orbs-network/lean-helix-go/services/randomseed"
 	"github.com/orbs-network/lean-helix-go/spec/types/go/protocol"
@@ -11,6 +13,7 @@ import (
 )
 
 func init() {
+	env.Register("C14_SyncDuringCommit", C14_SyncDuringCommit)
 	env.Register("C13_FutureRound", C13_FutureRound)
 	env.Register("C13_Worker", C13_Worker)
 	env.Register("C14_Sync", C14_Sync)
@@ -285,4 +288,55 @@ func C13_FutureRound() {
 	if full && len(n.commits) == 2 {
 		env.Reach("C13.future.committed_from_cache")
 	}
+}
+
+// C14_SyncDuringCommit: UpdateState(block of a symbolic height above the current one) is handled by the real
+// main loop while the worker is inside the commit callback of height 1 (the harness runs MainLoop.run from
+// inside the callback until the loop parks in its select, i.e. after it has gone through its per-iteration
+// context GC again). The callback then returns nil. When everything has settled, the node must be working on
+// the height after the synced block, and it must not have acted as first leader of height 2.
+func C14_SyncDuringCommit() {
+	me := env.Param("me")
+	wd := newWorld(me, equalWeights(4))
+	n := wd.n
+	n.commitErr = false
+	b := env.NondetU64("sync_h")
+	env.Assume(b >= 2 && b < 1<<62)
+	syncBlock := &stub.Block{H: primitives.BlockHeight(b)}
+	parked := -1
+	ctxSeen := false
+	n.onCommitHook = func(ctx context.Context) {
+		if len(n.commits) != 1 {
+			return
+		}
+		env.ChanOffer(n.m.mainUpdateStateChannel, &blockWithProof{block: syncBlock})
+		// the main loop takes the update, cancels, forwards, collects garbage again and waits for more events
+		parked = env.RunUntilParked(func() { n.m.run(context.Background()) })
+		ctxSeen = ctx.Err() != nil
+	}
+	b1 := &stub.Block{H: 1, Tag: 0x21, ProposalOK: true}
+	out0 := len(n.comm.Out)
+	if me == 0 {
+		wd.honestRound(1, 0)
+	} else {
+		roundWith(n, me, wd.net, 1, b1)
+	}
+	env.Assert("C14.setup.committed", len(n.commits) == 1)
+	env.Assert("C14.setup.mainloop_parked", parked == 2)
+	env.Assert("C15.commit_ctx_released_by_sync", ctxSeen)
+	// the worker loop now takes the pending sync from its channel
+	if env.ChanBuffered(n.m.worker.workerUpdateStateChannel) == 1 {
+		msg := <-n.m.worker.workerUpdateStateChannel
+		n.m.worker.handleUpdateState(msg)
+	}
+	env.Assert("C14.sync_takes_effect", uint64(n.m.state.Height()) == b+1)
+	for _, s := range n.comm.Out[out0:] {
+		if pp, ok := s.Msg.(*interfaces.PreprepareMessage); ok {
+			env.Assert("C14.no_first_leader_proposal", env.Or(pp.View() != 0, pp.BlockHeight() <= 1))
+		}
+	}
+	for _, r := range n.rounds {
+		env.Assert("C14.no_round_between", env.Or(r.height <= 1, uint64(r.height) == b+1))
+	}
+	env.Reach("C14.sync_during_commit")
 }
